@@ -216,7 +216,7 @@ pub fn reply_case_strategy_rows(p: &Program, well: u32, unknown_w: u32, garbage_
                 data_strategy(mode, &ty, well),
                 proptest::collection::vec(("[a-z][a-z_]{1,7}", proptest::collection::vec(("[a-z]{1,6}", "[ -~]{0,8}"), 0..3)), 0..3),
                 proptest::collection::vec(("/[a-z.]{1,12}", proptest::collection::vec(any::<u8>(), 0..8)), 0..2),
-                any::<u64>(),
+                u64_edges(),
                 // error texts as a chain produces them: arbitrary text, often behind the Display
                 // prefix of an error type (possibly nested), sometimes with non-ASCII / escapes
                 prop_oneof![
